@@ -332,6 +332,23 @@ def cases(tier):
             for shift in range(3):
                 params = [rk[(i + shift) % 3] if pos[i] else PLAIN[i % 3] for i in range(n)]
                 out.append({"params": params, "ret": "string" if n % 2 else None})
+    # the tuple cutoff counts application arguments only: 13..16 plain parameters together with 1..3
+    # transaction parameters (front / back / spread), last plain parameter static or dynamic
+    for nplain in (13, 14, 15, 16):
+        for ntx in (1, 2, 3):
+            for last in ("string", "uint64", ["tuple", "uint64", "string"]):
+                plain = ["uint64"] * (nplain - 1) + [last]
+                txs = [tk[(i + 1) % 4] for i in range(ntx)]
+                out.append({"params": txs + plain, "ret": "string"})
+                out.append({"params": plain + txs, "ret": None})
+                spread = list(plain)
+                for j, t in enumerate(txs):
+                    spread.insert(min(len(spread), 5 * j + 2), t)
+                out.append({"params": spread, "ret": "uint64"})
+    # references count as application arguments
+    for nplain in (13, 14, 15):
+        out.append({"params": ["account"] + ["uint64"] * nplain + ["asset"], "ret": None})
+        out.append({"params": ["pay", "application"] + ["bool"] * nplain + ["string"], "ret": "string"})
     # mixed: references + transactions + 15+ plain args
     out.append({"params": ["pay", "account"] + ["uint64"] * 15 + ["asset"], "ret": "uint64"})
     out.append({"params": ["application", "appl"] + ["string"] * 16, "ret": None})
